@@ -191,13 +191,19 @@ contract('saml2_tophat:class_name', trusted=True, pure=True, params=['instance']
 _ISSM = ("ite(item.issuer is not None and item.issuer.text is not None, vstr(strip(item.issuer.text)), "
          "ite(iss is not None and iss.text is not None, vstr(strip(iss.text)), None))")
 macro('ISSUER_OF', ['item', 'iss'], _ISSM)
+# SIGP names the formula "some usable certificate verifies" so that callers reason about one opaque atom; only
+# _check_signature's own proof unfolds it (definitional axiom below: the formula implies the atom, nothing else is assumed)
+ghost('SIGP', ['Val', 'Bool', 'Val', 'Val', 'Val', 'Val', 'Val'], 'Bool')   # (metadata, only_use_md_keys, doc bytes, id, issuer, item, node name)
 macro('SIG_OK', ['sec', 'doc', 'item', 'nn', 'iss'],
-      "exists(lambda k: "
-      "(truthy(sec.metadata) and len(md_certs(sec.metadata, ISSUER_OF(item, iss))) > 0 and k < len(md_certs(sec.metadata, ISSUER_OF(item, iss))) "
-      " and XS_OK(DOC(doc), nn, item.id, tmpfile(pem(md_certs(sec.metadata, ISSUER_OF(item, iss))[k])))) or "
-      "(not (truthy(sec.metadata) and len(md_certs(sec.metadata, ISSUER_OF(item, iss))) > 0) and not truthy(sec.only_use_keys_in_metadata) "
-      " and k < len(inst_certs(item)) and XS_OK(DOC(doc), nn, item.id, tmpfile(pem(inst_certs(item)[k])))), "
-      "0, len(md_certs(sec.metadata, ISSUER_OF(item, iss))) + len(inst_certs(item)))")
+      'SIGP(sec.metadata, truthy(sec.only_use_keys_in_metadata), DOC(doc), item.id, ISSUER_OF(item, iss), item, nn)')
+axiom('SIGP', 'DEF-SIGP',
+      "forall(lambda md, ou, d, i, s, item, nn: implies(exists(lambda k: "
+      "((md is not None and md_nonempty(md)) and len(md_certs(md, s)) > 0 and k < len(md_certs(md, s)) "
+      " and XS_OK(d, nn, i, tmpfile(pem(md_certs(md, s)[k])))) or "
+      "(not ((md is not None and md_nonempty(md)) and len(md_certs(md, s)) > 0) and not ou "
+      " and k < len(inst_certs(item)) and XS_OK(d, nn, i, tmpfile(pem(inst_certs(item)[k])))), "
+      "0, len(md_certs(md, s)) + len(inst_certs(item))), SIGP(md, ou, d, i, s, item, nn)), "
+      "['Val', 'Bool', 'Val', 'Val', 'Val', 'Val', 'Val'])")
 
 contract(SC + '.check_signature',
          types={'item': "Inst('saml2_tophat:SamlBase')", 'node_name': 'Str', 'origdoc': 'Union(Str, Bytes)', 'id_attr': 'Str',
@@ -335,3 +341,38 @@ contract('saml2_tophat.sigver:verify_redirect_signature',
          raises={'KeyError': 'True', 'Unsupported': 'True', 'ValueError': 'True', 'Exception': 'True'},
          modifies=[],
          clauses_from={'C15': ['C15-unsupported-never-verifies', 'C15-verifies-signed-query-under-given-certificate']})
+
+
+# ================================================================================================ C17 / C20: encrypt, decrypt, sign
+contract('saml2_tophat.sigver:pre_encrypt_assertion', trusted=True, params=['response'], assumptions=['A-PY'],
+         note='moves response.assertion into a fresh EncryptedAssertion (builder code, not verified)')
+contract('posix:unlink', trusted=True, pure=True, params=['path'], raises={'OSError': 'True'}, assumptions=['E-PROC'])
+
+contract(XB + '.encrypt_assertion',
+         types={'statement': 'Str', 'enc_key': 'Str', 'template': 'Str', 'key_type': 'Str', 'node_xpath': 'Opt(Str)', 'node_id': 'Opt(Str)'},
+         returns='Str',
+         ensures=[# C20: what is returned is the (non-empty) output the tool wrote, never the unencrypted statement
+                  ('C20-result-is-tool-output', 'exists(lambda o: is_bytes(o) and len(bytes_of(o)) > 0 and str_of(result) == unutf8(bytes_of(o)), "Val")')],
+         raises={'EncryptError': 'True', 'XmlsecError': 'True', 'OSError': 'True', 'UnicodeDecodeError': 'True'},
+         modifies=[], clauses_from={'C20': ['C20-result-is-tool-output', 'raises.EncryptError'], 'C17': ['C20-result-is-tool-output']})
+
+contract(XB + '.sign_statement',
+         types={'statement': 'Str', 'node_name': 'Str', 'key_file': 'Str', 'node_id': 'Opt(Str)', 'id_attr': 'Str'}, returns='Str',
+         ensures=[# C20: a signing run that produced no result never returns the unsigned statement as if it were signed
+                  ('C20-result-is-tool-output', 'exists(lambda o: is_bytes(o) and len(bytes_of(o)) > 0 and str_of(result) == unutf8(bytes_of(o)), "Val")')],
+         raises={'SigverError': 'True', 'OSError': 'True', 'UnicodeDecodeError': 'True'},
+         modifies=[], clauses_from={'C20': ['C20-result-is-tool-output', 'raises.SigverError']})
+contract(XB + '.decrypt', types={'enctext': 'Union(Str, Bytes)', 'key_file': 'Str', 'id_attr': 'Str'}, returns='Str', pure=False,
+         ensures=[('tool-output', 'exists(lambda o: is_bytes(o) and str_of(result) == unutf8(bytes_of(o)), "Val")')],
+         raises={'XmlsecError': 'True', 'OSError': 'True', 'UnicodeDecodeError': 'True', 'TypeError': 'True'}, modifies=[])
+
+contract(SC + '.decrypt_keys', types={'enctext': 'Str', 'keys': 'Any', 'id_attr': 'Opt(Str)'}, returns='Str',
+         requires=['keys is None or is_str(keys) or typed(keys, "List(Opt(Str))")'],
+         ensures=[# C17 / C20: content that no configured key decrypts comes back unchanged (and then yields no assertion);
+                  # anything else that is returned is non-empty output of the tool
+                  ('C17-undecryptable-is-returned-unchanged', 'result == enctext or len(str_of(result)) > 0')],
+         raises={'XmlsecError': 'True', 'OSError': 'True', 'UnicodeDecodeError': 'True', 'TypeError': 'True',
+                 'UnicodeEncodeError': 'True', 'AttributeError': 'True'},
+         modifies=[], loops={0: {'inv': [], 'modifies': []}, 1: {'inv': [], 'modifies': []}},
+         local_types={'keys': 'List(Opt(Str))'},
+         clauses_from={'C17': ['C17-undecryptable-is-returned-unchanged'], 'C20': ['C17-undecryptable-is-returned-unchanged']})
